@@ -31,11 +31,12 @@ pub fn def() -> CheckDef {
         runs_quick: 60_000,
         runs_thorough: 1_500_000,
         rule: "corruption faults on the channel between an encrypting and a decrypting party: for every sampled (mode, block size, cipher, IV, message <= 20 blocks, decrypting schedule, width policy, difference delta) ALL corruption positions j are enumerated; twin decryptions (clean vs corrupted) must differ in exactly the support the definition prescribes; prefix decryption for 'no dependence on later input'; identical cipher-input sequences for keystream modes. evaluations = scenarios; corruption positions are counted in reach_probes.corruptions. distinct = distinct (mode, block size, cipher, policy, schedule, delta kind, length); non-trivial = message of >= 2 blocks",
-        required_probes: &["corruptions", "cbc", "cfb", "cfb8", "pcbc", "ige", "stream", "cfb_partial_tail", "cfb_buffered", "later_blocks_changed", "prefix_checked", "keystream_independent_of_data"],
+        required_probes: &["corruptions", "cbc", "cfb", "cfb8", "pcbc", "ige", "stream", "cfb_partial_tail", "cfb_buffered", "arbitrary_ciphertext", "later_blocks_changed", "prefix_checked", "keystream_independent_of_data"],
         r#gen,
         exec,
         components: "real code on both parties (cbc, pcbc, ige, cfb-mode, cfb8, ofb, ctr, belt-ctr and cipher's front ends); channel: harness byte buffer with injected bit/byte differences; stub: block cipher (a true bijection, self-tested) in most runs, real ciphers in the rest; no reference model",
         assumptions: &["'garbled' is checked as 'differs', which is a theorem for a bijective cipher; it is never demanded of partial blocks, of CFB-8's bs follow-up bytes or of PCBC/IGE's later blocks", "sampling of scenarios, enumeration of corruption positions within each"],
+        nondet_is_violation: false,
     }
 }
 
@@ -56,6 +57,7 @@ fn r#gen(rng: &mut Rng, _thorough: bool) -> Scn {
         }
         let buf = base == "cfb" && rng.chance(2, 5);
         s.set_num("buf", buf as u128);
+        s.set_num("raw", rng.chance(1, 3) as u128);
         for _ in 0..1 + rng.usize(4) {
             // the buffered decryptor is driven with byte-sized pieces, the block-level one with blocks
             let fam_ops = if buf { FAM_BUF } else { FAM_BLOCK };
@@ -169,11 +171,18 @@ fn exec(scn: &Scn, ctx: &mut Ctx) -> Verdict {
                 Ok(drive_pieces(d.as_mut(), data, &to_blocks_ops(&scn.ops), 1, scn, ctx))
             }
         };
+        let raw = scn.num("raw") == 1;
+        if raw {
+            // the statement is about *any* ciphertext: take the data pool itself (zero blocks,
+            // repeated blocks, counting patterns) instead of an honest ciphertext
+            c = msg.clone();
+            ctx.probe("arbitrary_ciphertext");
+        }
         let p0 = match dec(&c, ctx) {
             Ok(p) => p,
             Err(v) => return v,
         };
-        if p0 != msg {
+        if !raw && p0 != msg {
             violation!("roundtrip", "{}: honest ciphertext does not decrypt to the message", base);
         }
         ctx.probe(match base.as_str() {
